@@ -128,7 +128,7 @@ func checkC02(e *Engine, r *Report) {
 				t := s.Text
 				ok := false
 				switch {
-				case name == "TransitionDb" && strings.Contains(t, ":= append ( "+pkgGethVM+".ActivePrecompiles (") && strings.Contains(t, "GetCustomPrecompiledContractsAddress ( ) ..."):
+				case name == "TransitionDb" && strings.HasPrefix(t, "#activePrecompiles := append ( ") && strings.Contains(t, pkgGethVM+".ActivePrecompiles ( #rules )") && strings.Contains(t, "GetCustomPrecompiledContractsAddress ( ) ...") && !strings.Contains(t, ";"):
 					ok = true // D3
 				case name == "TransitionDb" && strings.HasPrefix(t, "#st . state . PrepareAccessList ( ") && strings.Count(t, ",") == 3:
 					// same call as the reference with the third argument replaced by the local defined above
